@@ -7,9 +7,10 @@ cutting loops at invariants, and emitting named obligations.
 import ast
 import z3
 
-from .core import (Sym, Arr, Arr2, LArr, SList, PyList, ObjRec, Ref, ClassVal,
+from .core import (Sym, Arr, Arr2, LArr, SList, PyList, FlatList, ObjRec, Ref, ClassVal,
                    Opaque, State, OutsideSubset, Raised, fresh, uid, I, B,
-                   concrete_int, concrete_bool, kind_of, sort_of)
+                   concrete_int, concrete_bool, kind_of, sort_of,
+                   counter_get, counter_set)
 from . import arrays as A
 from .frontend import loops_of
 
@@ -52,7 +53,8 @@ class IterDom:
 
 class LoopSpec:
     def __init__(self, inv=None, mode='inv', extra_mods=(), unroll=False,
-                 exit_assume=None):
+                 exit_assume=None, prepare=None):
+        self.prepare = prepare    # callable(ex, st): abstract lists before loop
         self.inv = inv            # callable(V) -> list[(name, z3 bool)]
         self.mode = mode          # 'inv' | 'havoc'
         self.extra_mods = tuple(extra_mods)
@@ -124,7 +126,7 @@ class Executor:
         return f
 
     def box(self, st, v, hint='a'):
-        if isinstance(v, (Arr, Arr2, LArr, SList, PyList, ObjRec)):
+        if isinstance(v, (Arr, Arr2, LArr, SList, PyList, ObjRec, FlatList)):
             return st.alloc(v, hint)
         return v
 
@@ -138,6 +140,13 @@ class Executor:
         for (d, val) in st.ghost.get('decisions', ()):
             if d.eq(ts):
                 return val
+        nts = z3.simplify(z3.Not(ts))
+        for f in reversed(st.pc[-12:]):
+            fs = z3.simplify(f) if z3.is_expr(f) else f
+            if fs.eq(ts):
+                return True
+            if fs.eq(nts):
+                return False
         raise NeedSplit(ts)
 
     def feasible(self, st):
@@ -193,9 +202,11 @@ class Executor:
         self.stats['stmts'] += 1
         work = [st]
         done = []
+        cnt0 = counter_get()
         while work:
             s0 = work.pop()
             s = s0.copy()
+            counter_set(cnt0)
             n_obl = len(self.cx.obligations)
             n_cov = len(self.cx.covers)
             names = dict(self.cx._names)
@@ -550,6 +561,10 @@ class Executor:
             return A.fresh_larr(st, v.k, hint)
         if isinstance(v, SList):
             return A.fresh_slist(st, v.k, hint)
+        if isinstance(v, FlatList):
+            c = z3.Int(uid(hint + '_cnt'))
+            st.assume(c >= 0)
+            return FlatList(c, A.fresh_arr(st, v.flat.k, hint + '_flat'))
         if isinstance(v, PyList):
             raise OutsideSubset('havoc of a concrete python list ({}) - give '
                                 'the loop an abstraction'.format(hint))
@@ -558,9 +573,18 @@ class Executor:
         raise OutsideSubset('havoc of {!r}'.format(v))
 
     def havoc(self, st, names, fields, ghosts, cells=()):
+        from .npmodel import MaybeNone
         for nm in sorted(names):
             if nm in st.env:
                 v = st.env[nm]
+                if v is None:
+                    continue
+                if isinstance(v, MaybeNone):
+                    if nm in cells and isinstance(v.val, Ref):
+                        st.set_cell(v.val, self.havoc_value(
+                            st, st.cell(v.val), nm))
+                        continue
+                    raise OutsideSubset('havoc of optional value ' + nm)
                 if nm in cells and isinstance(v, Ref) and not isinstance(
                         st.cell(v), ObjRec):
                     # in-place mutation: havoc the cell itself (aliases follow)
@@ -572,6 +596,13 @@ class Executor:
                 rec = st.cell(st.env[o])
                 if isinstance(rec, ObjRec) and f in rec.fields:
                     v = rec.fields[f]
+                    if isinstance(v, MaybeNone):
+                        if isinstance(v.val, Ref):
+                            st.set_cell(v.val, self.havoc_value(
+                                st, st.cell(v.val), f))
+                            rec.fields[f] = MaybeNone(
+                                z3.Bool(uid(f + '_none')), v.val)
+                        continue
                     if isinstance(v, Ref) and not isinstance(st.cell(v), ObjRec):
                         st.set_cell(v, self.havoc_value(st, st.cell(v), f))
                     else:
@@ -592,6 +623,8 @@ class Executor:
                 ghosts.add(m[1:])
             else:
                 names.add(m)
+        if spec.prepare is not None:
+            spec.prepare(self, st)
         # 1. invariant holds on entry
         st.env[kname] = Sym(z3.IntVal(0), 'int')
         if spec.inv is not None:
@@ -661,9 +694,11 @@ class Executor:
         """States (forks of st) in which `test` evaluates to `want`."""
         work = [st]
         res = []
+        cnt0 = counter_get()
         while work:
             s0 = work.pop()
             s = s0.copy()
+            counter_set(cnt0)
             n_obl = len(self.cx.obligations)
             names = dict(self.cx._names)
             try:
@@ -710,6 +745,10 @@ class Executor:
             if not (isinstance(o, Ref) and isinstance(st.cell(o), ObjRec)):
                 raise OutsideSubset('attribute assignment on {!r}'.format(o),
                                     tgt)
+            q = self.reg.find_method(st.cell(o).cls, tgt.attr + '.setter')
+            if q is not None:
+                self.reg.call_repo(self, st, q, o, [v], {}, tgt)
+                return
             st.setfield(o, tgt.attr, v)
             return
         if isinstance(tgt, ast.Subscript):
